@@ -227,6 +227,10 @@ theorem reject_non_assertion_slot (x : Cbor) (rest : List Cbor) (c : Cbor) (a : 
   rw [hslot] at this
   cases this
 
+example : ∃ msg, envOfCbor CodecEx.toyH (.array [.uint 1, .uint 2]) = .err msg :=
+  reject_non_assertion_slot CodecEx.toyH (.uint 1) [.uint 2] (.uint 2) (.knownValue 2 ⟨4⟩)
+    (by simp) (by rfl) (by rfl)
+
 /-- in particular a known value, a leaf (either tag) or a wrapped envelope in an assertion
 slot is rejected -/
 theorem reject_non_assertion_shape (x : Cbor) (rest : List Cbor) (c : Cbor) (hc : c ∈ rest)
@@ -282,6 +286,23 @@ theorem reject_repeated_digest (x : Cbor) (rest : List Cbor) (i j : Nat) (ci cj 
     ∃ msg, envOfCbor h (.array (x :: rest)) = .err msg :=
   reject_not_ascending h x rest i j ci cj a b hij hi hj ha hb (by rw [heq]; omega)
 
+/- misordered: `[1, elided 5, elided 3]`; repeated digest: two different assertions with the
+same (toy) digest -/
+example : ∃ msg, envOfCbor CodecEx.toyH
+    (.array [.uint 1, .bytes (Digest.bytes ⟨5⟩), .bytes (Digest.bytes ⟨3⟩)]) = .err msg :=
+  reject_misordered CodecEx.toyH (.uint 1) [.bytes (Digest.bytes ⟨5⟩), .bytes (Digest.bytes ⟨3⟩)] 0 1 _ _
+    (.elided ⟨5⟩) (.elided ⟨3⟩) (by omega) (by rfl) (by rfl)
+    (envOfCbor_cborOf_aux _ (.elided ⟨5⟩) (by simp [WF]) (by simp [Canon, Digest.Valid]) (by simp [EncShape]))
+    (envOfCbor_cborOf_aux _ (.elided ⟨3⟩) (by simp [WF]) (by simp [Canon, Digest.Valid]) (by simp [EncShape]))
+    (by decide)
+
+example : ∃ msg, envOfCbor CodecEx.toyH
+    (.array [.uint 1, .map [(.uint 1, .uint 2)], .map [(.uint 1, .uint 3)]]) = .err msg :=
+  reject_repeated_digest CodecEx.toyH (.uint 1) [.map [(.uint 1, .uint 2)], .map [(.uint 1, .uint 3)]] 0 1 _ _
+    (.assertion (.knownValue 1 ⟨4⟩) (.knownValue 2 ⟨4⟩) ⟨64⟩)
+    (.assertion (.knownValue 1 ⟨4⟩) (.knownValue 3 ⟨4⟩) ⟨64⟩)
+    (by omega) (by rfl) (by rfl) (by rfl) (by rfl) (by rfl)
+
 /-- the same element twice (whether or not it decodes) -/
 theorem reject_repeated_element (x : Cbor) (rest : List Cbor) (i j : Nat) (c : Cbor)
     (hij : i < j) (hi : rest[i]? = some c) (hj : rest[j]? = some c) :
@@ -327,7 +348,7 @@ theorem reject_bad_digest_len_compressed (c s data : Cbor) (t : Nat) (b : Bytes)
   obtain ⟨cm, d, _, hitem, _⟩ := decodeCompressed_ok he
   simp only [compMsgCbor, digestCbor, Cbor.array.injEq, List.cons.injEq, Cbor.tagged.injEq,
     Cbor.bytes.injEq, and_true] at hitem
-  have := Digest.bytes_length d
+  have := Digest.bytes_len32 d
   rw [← hitem.2.2.2.2] at this
   exact hb this
 
